@@ -41,6 +41,11 @@ claim("C06",
       "Trusted: Lean kernel, 3 axioms, hooks, e2e runner. Assumed: SHA-256 collision resistance; cmd/go's action IDs cover source/tags/GOOS/GOARCH/Go version. Bit-for-bit comparison relies on C03.",
       "Lean 4 proof (key injectivity, store invariant over all histories) + oracle differential + real build histories vs. cold references", "DESIGN.md 5/C06")
 
+claim("C07",
+      "Lean 4 theorems: get_never_wrong - for every store whose readable entries are sound and EVERY sequence of faults (entry deleted, entry damaged = index or data file emptied/truncated, whole cache wiped), a lookup misses or returns exactly the value put; load_eq_cold - over any acyclic import graph (well-founded recursion mirroring loadPkgCache/computePkgCache), with any subset of entries present, every package loads to what a computation from empty caches gives, at every depth; load_after_faults combines both; C06's history_correct covers builds interleaved with faults. Tie / search: a reflect-using three-package module is built, then for each fault case (every entry the build added to GARBLE_CACHE - index and data files - deleted/emptied/truncated, the patched linker and its version stamp, sampled GOCACHE entries, all subsets of up to 4 entries, whole-cache wipes) the warm caches are restored, the fault applied, main and a dependency edited, and the rebuild compared byte for byte with a build from caches that never saw the module.",
+      "Trusted: Lean kernel, 3 axioms, e2e runner. rogpeppe/go-internal/cache's GetFile is modelled as 'any error is a miss'; a same-size corrupted data file is outside the quantifier.",
+      "Lean 4 proof (lookup never wrong, recursive load = cold, for all fault sequences) + fault enumeration on real caches vs. cold reference", "DESIGN.md 5/C07")
+
 claim("C08",
       "PARTIAL: the SSA analysis deciding WHICH types reach reflection is not modelled in Lean (its order independence is sampled by rebuilds). Proved (Lean 4): names_restored - for every name table and every type string built from literal syntax and obfuscated names, the replacement specification returns the string with every name replaced by its original (C04's round-trip theorem over an arbitrary template, under the explicit unique-parse hypothesis); merge_any / merge_monotone / merge_keys_comm - merging per-package name maps never loses a recorded name and the recorded key set does not depend on merge order. Tie: the replacer garble injects into binaries vs. strings.NewReplacer vs. the specification on 1200 sorted name-table-like pair lists; end to end, generated programs reflect on nested/embedded/pointer/slice/map/array/generic/aliased structs declared in a dependency through direct calls, helper chains, variadics, the stored-then-passed shape, encoding/json Marshal/Unmarshal and %+v, and are rebuilt 5 times after comment-only edits (alternately only the dependency, then every file) - each build must print exactly what the regular build prints.",
       "Trusted: Lean kernel, 3 axioms, hooks, generator. Package qualifiers of Type.String()/%T are outside the compared observables. Known finding (open): a struct reaching reflection only through a fmt verb keeps obfuscated field names.",
